@@ -702,6 +702,12 @@ class Engine:
                 return None
             if T == 'opaque':
                 return Opaque(z3.Const(fresh_name(name), ValSort), name)
+            if T == 'sigrow':           # one signal as an opaque value
+                return _opq(z3.Const(fresh_name(name), ValSort), z3.Int(fresh_name(name + '.len')))
+            if T == 'optdict':          # an option dictionary as an opaque value WITH object identity (mutable)
+                o = Opaque(z3.Const(fresh_name(name), ValSort), name)
+                o.cell = {'ident': self.new_ident(fresh), 't': o.t}
+                return o
             raise Unsupported('type %s' % T)
         tag = T[0]
         if tag == 'const':
@@ -711,6 +717,22 @@ class Engine:
             self.assume(n >= (T[2] if len(T) > 2 else 0))
             kind = {'arr': 'ndarray', 'series': 'series', 'list': 'list'}[tag]
             return self.new_arr(n, T[1], kind=kind, base=name, fresh=fresh)
+        if tag == 'grid':        # N-d array whose leading k dimensions index opaque values (signals / option sets)
+            # ('grid', k, has_time_axis, kind): shape = k leading extents (+ one trailing time extent)
+            k, has_t = T[1], T[2]
+            kind = T[3] if len(T) > 3 else 'ndarray'
+            shape = []
+            for d in range(k + (1 if has_t else 0)):
+                sv = z3.Int(fresh_name('%s.shape%d' % (name, d)))
+                self.assume(sv >= 1)
+                shape.append(sv)
+            ident = self.new_ident(fresh)
+            fn = z3.Function(fresh_name(name + '.at'), *([z3.IntSort()] * k), ValSort)
+            a = Arr(ident, shape, VAL, kind)
+            a.lead = k
+            tlen = shape[-1] if has_t else None
+            self.st.heap[ident] = (lambda *idx, fn=fn, tlen=tlen: _opq(fn(*idx), tlen))
+            return a
         if tag == 'nd':          # N-d array of which only the shape is modelled
             shape = []
             for d in range(T[1]):
@@ -1390,6 +1412,12 @@ def _has_quant(t):
         seen.add(i)
         stack.extend(x.children())
     return False
+
+
+def _opq(t, tlen=None):
+    o = Opaque(t, 'element')
+    o.length = tlen
+    return o
 
 
 class Proof:
